@@ -1521,3 +1521,22 @@ package stats
 //@   ensures [outside] (L < 0 || L >= len(h.bins)) ==> result == 0
 //@   ensures [inside]  0 <= L && L < len(h.bins) ==> result == h.bins[ifloor(L)]
 //@   assigns nothing
+
+// C14: the plotted range of a LogHist runs from the lower edge of the first
+// non-empty bin (bin 0 if samples fell below the range or every bin is empty) to
+// the upper edge of the last non-empty bin (the top if samples fell above).
+//@ func LogHist.Bounds
+//@   model real
+//@   results lo, hi
+//@   requires h != nil && h.m > 0
+//@   witness wl = lowbin @ret1
+//@   witness wh = highbin @ret1
+//@   ensures [edges] lo == pow(h.b, wl / h.m) && hi == pow(h.b, wh / h.m) && 0 <= wl && wl <= len(h.bins) && 0 <= wh && wh <= len(h.bins)
+//@   ensures [low-under]  h.low != 0 ==> wl == 0
+//@   ensures [low-first]  h.low == 0 && wl > 0 ==> wl < len(h.bins) && h.bins[wl] > 0 && (forall j in 0..wl :: h.bins[j] == 0)
+//@   ensures [low-zero]   h.low == 0 && wl == 0 ==> len(h.bins) == 0 || h.bins[0] > 0 || (forall j in 0..len(h.bins) :: h.bins[j] == 0)
+//@   ensures [high-over]  h.high != 0 ==> wh == len(h.bins)
+//@   ensures [high-last]  h.high == 0 && wh < len(h.bins) ==> wh >= 1 && h.bins[wh-1] > 0 && (forall j in wh..len(h.bins) :: h.bins[j] == 0)
+//@   loop 1 (bin) invariant lowbin == 0 && (forall j in 0..bin :: h.bins[j] == 0)
+//@   loop 2 (bin) invariant highbin == len(h.bins) && 0 <= lowbin && lowbin <= len(h.bins) && (h.low != 0 ==> lowbin == 0) && (h.low == 0 && lowbin > 0 ==> lowbin < len(h.bins) && h.bins[lowbin] > 0 && (forall j in 0..lowbin :: h.bins[j] == 0)) && (h.low == 0 && lowbin == 0 ==> len(h.bins) == 0 || h.bins[0] > 0 || (forall j in 0..len(h.bins) :: h.bins[j] == 0)) && (forall j in len(h.bins)-bin..len(h.bins) :: h.bins[j] == 0)
+//@   assigns nothing
